@@ -129,6 +129,10 @@ func (m *nodeMonitor) check() {
 		o.violate("C02", "vote-released-before-recorded", v)
 	}
 	n.wrapViol = nil
+	for _, v := range n.wrapViolPH {
+		o.violate("C02", "proposal-released-before-recorded", v)
+	}
+	n.wrapViolPH = nil
 	for ; m.pos < len(n.trace); m.pos++ {
 		e := n.trace[m.pos]
 		switch e.kind {
@@ -517,6 +521,20 @@ func (m *nodeMonitor) quiescent() {
 	}
 	if m.partial {
 		return
+	}
+	// Commit wait is a timed step: once the state machine has asked the driver to finalize (and is not catching up on
+	// committed headers) a commit-wait timer of this height must have been started - it may be outstanding, have fired,
+	// or have been cancelled because the mirror signalled that the height is committed, but it cannot never have existed.
+	if rm.finRequested {
+		ever := false
+		for _, t := range n.timers {
+			if t.kind == "commit-wait" && t.h == h {
+				ever = true
+			}
+		}
+		if !ever {
+			o.violate("C12", "commit-wait-without-timer", fmt.Sprintf("the state machine asked to finalize %d/%d and waits in commit wait, but no commit-wait timer was ever started for height %d", h, r, h))
+		}
 	}
 	// The round is undecided and a precommit decision is due => DecidePrecommit was asked.
 	decided := pcSingle >= majority(total) || pcTotal == total
